@@ -696,7 +696,13 @@ func execSession(t *testing.T, plan *simkit.Plan) *simkit.Result {
 							continue
 						}
 						s.Count("probe.half_created_session_terminated", 1)
-						mgr.Terminate(context.Background(), &selection.Selection{Specifications: []string{id}}, "")
+						if terr := mgr.Terminate(context.Background(), &selection.Selection{Specifications: []string{id}}, ""); terr == nil {
+							// C29: terminating removes the persisted state, also of
+							// a session that a crash left half-created.
+							if _, e := os.Stat(h.sessionPath()); e == nil {
+								s.Violate("C29", "terminate-left-session-file", "half-created", "Terminate of a session left half-created by a crash returned success but its session file is still there (it will run again after the next restart)")
+							}
+						}
 						if !created {
 							h.mu.Lock()
 							h.sessionID, h.sel = "", nil
@@ -901,6 +907,17 @@ func (h *harness) noteCrash() {
 		}
 	}
 	h.lifecycleBusy, h.mgrBusy = false, false
+	// C05 across a crash: while a cycle's transitions have not all returned,
+	// no endpoint has reported anything for it, so the archive on disk must
+	// still be exactly the state that cycle started from.
+	h.crashArchiveOn = false
+	if h.cycleN > 0 && h.resetSeq == 0 {
+		for _, side := range []string{"alpha", "beta"} {
+			if len(h.expectedPlan[side]) > 0 && h.transReturned[side] != h.cycleN {
+				h.crashArchiveOn, h.crashArchive = true, cloneEntry(h.cycleAncestor)
+			}
+		}
+	}
 }
 
 // afterCrash resets everything the harness knew about the crashed incarnation's
@@ -961,6 +978,18 @@ func (h *harness) checkAfterCrash(mgr *synchronization.Manager) {
 	}
 	if len(states) == 1 && wasPaused && !states[0].Session.Paused {
 		s.Violate("C29", "paused-state-lost", "crash", "Pause had returned before the crash and the session is not paused after it")
+	}
+	h.mu.Lock()
+	expectOn, expect := h.crashArchiveOn, h.crashArchive
+	h.crashArchiveOn = false
+	h.mu.Unlock()
+	if expectOn && !wasTerm {
+		if anc, aerr := h.loadArchive(); aerr == nil {
+			s.Count("probe.archive_checked_after_crash_in_transition", 1)
+			if !deepEqual(anc, expect) {
+				s.Violate("C05", "archive-records-unreported-content", "crash", "the daemon died while the transitions of a cycle were still pending, so no endpoint had reported anything for it; yet the archive on disk is %s instead of the state that cycle started from, %s", render(anc), render(expect))
+			}
+		}
 	}
 	// The archive is whole: it loads and holds only synchronizable content.
 	if anc, aerr := h.loadArchive(); aerr != nil {
